@@ -118,7 +118,7 @@ _DEP_CONSTS = {'parry2d_f64::math::DIM': 2, 'parry2d_f64::math::SIMD_WIDTH': 4, 
 
 
 # enums of dependencies whose values cross into engeom's code (variant order = discriminant)
-_DEP_ENUMS = {'SegmentPointLocation': ['OnVertex', 'OnEdge'], 'TrianglePointLocation': ['OnVertex', 'OnEdge', 'OnFace', 'OnSolid'], 'SimdVisitStatus': ['MaybeContinue', 'ExitEarly']}
+_DEP_ENUMS = {'SegmentPointLocation': ['OnVertex', 'OnEdge'], 'TrianglePointLocation': ['OnVertex', 'OnEdge', 'OnFace', 'OnSolid'], 'SimdVisitStatus': ['MaybeContinue', 'ExitEarly'], 'IntersectResult': ['Intersect', 'Negative', 'Positive'], 'SplitResult': ['Pair', 'Negative', 'Positive']}
 
 
 class Engine:
